@@ -428,50 +428,65 @@ func c19Explorer(cs c19Case, bound int) *sched.Explorer {
 func c19Run(c *fw.Ctx) {
 	defer cleanupKit()
 	c19Seq(c)
-	maxLen := 2
-	bound := 1
-	if c.Thorough() {
-		maxLen = 3
+	seqsOf := func(n int) [][]string {
+		var seqs [][]string
+		var rec func(cur []string)
+		rec = func(cur []string) {
+			if len(cur) == n {
+				seqs = append(seqs, append([]string{}, cur...))
+				return
+			}
+			for _, m := range c19Endings {
+				rec(append(cur, m))
+			}
+		}
+		rec(nil)
+		return seqs
 	}
-	var seqs [][]string
-	var rec func(cur []string)
-	rec = func(cur []string) {
-		if len(cur) > 0 {
-			seqs = append(seqs, append([]string{}, cur...))
-		}
-		if len(cur) == maxLen {
-			return
-		}
-		for _, m := range c19Endings {
-			rec(append(cur, m))
-		}
-	}
-	rec(nil)
+	var races, len12, len3 []c19Case
 	for _, race := range []string{"connecting", "backlog", "in-flight", "tls-handshaking", "tls-stalled", "after-second-start"} {
 		for bg := 0; bg <= 1; bg++ {
-			if !c.Mine() {
-				continue
-			}
-			cs := c19Case{Kind: "sched", Background: bg, StopRace: race, Endings: []string{"stop:" + race}}
-			c19Explore(c, cs, 2)
+			races = append(races, c19Case{Kind: "sched", Background: bg, StopRace: race, Endings: []string{"stop:" + race}})
 		}
 	}
-	for _, endings := range seqs {
-		for bg := 0; bg <= 2; bg++ {
+	for n := 1; n <= 3; n++ {
+		for _, endings := range seqsOf(n) {
+			for bg := 0; bg <= 2; bg++ {
+				cs := c19Case{Kind: "sched", Background: bg, Endings: endings, StopAtEnd: bg != 1}
+				if n == 3 {
+					len3 = append(len3, cs)
+				} else {
+					len12 = append(len12, cs)
+				}
+			}
+		}
+	}
+	// phases in order of increasing cost; each is complete only if every worker
+	// finished its share (<phase>_done == <phase>_scenarios in the evidence counters)
+	phase := func(name string, list []c19Case, bound int) bool {
+		if c.Shard == 0 {
+			c.Count(name+"_scenarios", int64(len(list)))
+		}
+		for _, cs := range list {
 			if !c.Mine() {
 				continue
 			}
 			if c.Expired() {
-				return
+				c.Cap("phase %s (deviation bound %d) stopped by the internal deadline; see the %s_done counter", name, bound, name)
+				return false
 			}
-			b := bound
-			if len(endings) == 3 {
-				b = 0
-			}
-			cs := c19Case{Kind: "sched", Background: bg, Endings: endings, StopAtEnd: bg != 1}
-			c19Explore(c, cs, b)
+			c19Explore(c, cs, bound)
+			c.Count(name+"_done", 1)
 		}
+		return true
 	}
+	if !phase("p1_stop_races_bound2", races, 2) || !phase("p1_endings_len2_bound1", len12, 1) || !c.Thorough() {
+		return
+	}
+	_ = phase("p2_endings_len3_bound0", len3, 0) &&
+		phase("p3_stop_races_bound3", races, 3) &&
+		phase("p4_endings_len2_bound2", len12, 2) &&
+		phase("p5_endings_len3_bound1", len3, 1)
 }
 
 func c19Explore(c *fw.Ctx, cs c19Case, bound int) {
@@ -544,7 +559,7 @@ func init() {
 	fw.Register(&fw.Prop{
 		ID:          "C19",
 		Level:       "fault_enumeration",
-		Rule:        "(sequential) representative requests, alone and behind a PING: end of stream at EVERY byte offset with EOF and with reset, a Write failing from call 1..3, QUIT at each pipeline position (also with a failing write), every single-byte substitution of 18 valid streams; oracle: loop returned, transport closed, registry empty. (scheduled) a server with plain and TLS port started with Start(), 0..2 background connections, then every sequence of 1..2 (thorough 3) endings out of {EOF at a boundary, EOF inside a request, reset inside a request, QUIT, malformed frame, client that stops reading until the server's Write parks and then resets, TLS garbage handshake, TLS abort after ClientHello, TLS certificate rejected by the common-name rule, valid TLS client then reset, valid TLS client then orderly close}, real crypto/tls, every schedule with <=1 deviation; after each ending, at quiescence: the server closed that socket, no server goroutine is parked on it, the registry holds exactly the background connections, which are still served; finally Stop releases everything (sockets, goroutines, registry, listeners). Plus Stop racing with a connecting client, a client still in the accept backlog, a client with a command in flight, a client in the TLS handshake and one stalled before its ClientHello, and Stop after a second Start() on the running server, which must leave registry and connections as they were (deviation bound 2).",
+		Rule:        "(sequential) representative requests, alone and behind a PING: end of stream at EVERY byte offset with EOF and with reset, a Write failing from call 1..3, QUIT at each pipeline position (also with a failing write), every single-byte substitution of 18 valid streams; oracle: loop returned, transport closed, registry empty. (scheduled) a server with plain and TLS port started with Start(), 0..2 background connections, then every sequence of 1..2 endings out of {EOF at a boundary, EOF inside a request, reset inside a request, QUIT, malformed frame, client that stops reading until the server's Write parks and then resets, TLS garbage handshake, TLS abort after ClientHello, TLS certificate rejected by the common-name rule, valid TLS client then reset, valid TLS client then orderly close}, real crypto/tls, every schedule with <=1 deviation (thorough phases, in order: sequences of 3 endings on the default schedule, Stop races at bound 3, sequences of <=2 endings at bound 2, sequences of 3 at bound 1; each complete only when its <phase>_done counter equals <phase>_scenarios); after each ending, at quiescence: the server closed that socket, no server goroutine is parked on it, the registry holds exactly the background connections, which are still served; finally Stop releases everything (sockets, goroutines, registry, listeners). Plus Stop racing with a connecting client, a client still in the accept backlog, a client with a command in flight, a client in the TLS handshake and one stalled before its ClientHello, and Stop after a second Start() on the running server, which must leave registry and connections as they were (deviation bound 2).",
 		Assumptions: []string{"the in-memory transport is the only kind of descriptor the framework opens besides listeners: 'descriptor released' = Close called on it", "10^4-cycle churn and /proc/self/fd counts are replaced by zero residue per ending from every reachable small registry state"},
 		Run:         c19Run,
 		Replay:      c19Replay,
